@@ -160,6 +160,9 @@ func newDisc(t *testing.T, s *sched, mm *memMap, keep *[][]int) *disc {
 		}
 		d.prep = func(first, n int) (func(), int) {
 			sl := make([]int, n, n+s.Slack)
+			if n == 0 && first%2 == 0 {
+				sl = nil // an empty input slice may just as well be nil
+			}
 			for i := range sl {
 				sl[i] = first + i
 			}
